@@ -13,6 +13,7 @@ import sys
 import tempfile
 
 PY = "/venv/bin/python"
+ROOT = os.path.dirname(os.path.dirname(os.path.abspath(__file__)))      # /verif, or a snapshot of it
 
 
 def sh(cmd, cwd=None, env=None, timeout=3000):
@@ -56,7 +57,7 @@ def main():
         os.remove(jx)
         res = {}
         for c in checks:
-            rc, o = sh([PY, "run.py", "check", c, "--tier", "quick"], cwd="/verif", env={"LADIM_REPO": wt})
+            rc, o = sh([PY, "run.py", "check", c, "--tier", "quick"], cwd=ROOT, env={"LADIM_REPO": wt, "TMPDIR": os.environ.get("SEED_TMP", "/tmp")})
             viol = [ln for ln in o.splitlines() if ln.startswith("VIOLATION")]
             clauses = sorted({ln.split("clause=")[1].split(" ")[0] for ln in o.splitlines() if "clause=" in ln})
             res[c] = dict(exit=rc, violations=len(viol), clauses=clauses[:8], summary=[ln for ln in o.splitlines() if ln.startswith(c + " [")][-1:])
@@ -66,7 +67,7 @@ def main():
         meta["confirmed"] = ok
         print(json.dumps(meta, indent=1))
         if ok:
-            dst = os.path.join("/verif/seeded", sid)
+            dst = os.path.join(ROOT, "seeded", sid)
             os.makedirs(dst, exist_ok=True)
             for f in ("patch.diff", "demo.py", "notes.md"):
                 if os.path.exists(os.path.join(out, f)) and os.path.realpath(out) != os.path.realpath(dst):
@@ -77,7 +78,7 @@ def main():
             old = {}
             if os.path.exists(os.path.join(dst, "meta.json")):
                 old = json.load(open(os.path.join(dst, "meta.json")))
-            for k in ("change", "needs_to_manifest", "caught_by_as_of_DESIGN", "author_notes_excerpt"):
+            for k in ("change", "needs_to_manifest", "caught_by_as_of_DESIGN", "author_notes_excerpt", "history"):
                 if k in old and (k not in meta or meta[k] == "see notes.md"):
                     meta[k] = old[k]
             json.dump(meta, open(os.path.join(dst, "meta.json"), "w"), indent=1)
